@@ -27,12 +27,16 @@ VARIABLE case
 Paths(alpha, n) == UNION {[1..k -> alpha] : k \in 0..n}
 
 \* ---- scope cases ---------------------------------------------------------------
-Heads == SchemeTokens \X AuthTokens
+Heads == SchemeTokens \X BasicAuthTokens
 \* chosen head pairs for the deep domains (scheme a, auth a, scheme b, auth b)
 HeadPairs == { <<"sdc.x", "h", "sdc.x", "h">>, <<"sdc.x", "h", "SDC.X", "H">>, <<"SDC.X", "H", "sdc.x", "h">>,
                <<"sdc.x", "h", "sdc.y", "h">>, <<"sdc.x", "h", "sdc.x", "g">>,
                <<"sdc.x", "None", "sdc.x", "None">>, <<"sdc.x", "None", "Sdc.X", "None">>,
-               <<"sdc.x", "None", "sdc.x", "h">> }
+               <<"sdc.x", "None", "sdc.x", "h">>,
+               \* port and userinfo belong to the authority
+               <<"sdc.x", "h:1", "sdc.x", "h:1">>, <<"sdc.x", "h:1", "SDC.X", "H:1">>, <<"sdc.x", "h:1", "sdc.x", "h:2">>,
+               <<"sdc.x", "h:1", "sdc.x", "h">>, <<"sdc.x", "h", "sdc.x", "h:1">>,
+               <<"sdc.x", "u@h", "sdc.x", "u@h">>, <<"sdc.x", "u@h", "sdc.x", "v@h">>, <<"sdc.x", "u@h", "sdc.x", "h">> }
 SameHeadPair == { <<"sdc.x", "h", "sdc.x", "h">> }
 
 Pairs(hp, alpha, n, rules) == TLCEval(
